@@ -7,12 +7,13 @@ use crate::write_manager::write_behind::verif::{drive_reorder_buffer, write_task
 const MAXN: usize = 4;
 
 // ---- recorder database (harness KvDatabase): single-threaded global state ----
-static mut QV_LOG: [u8; 8] = [0; 8]; // epochs in the order they became durable
+static mut QV_LOG: u64 = 0; // epochs in the order they became durable, 4 bits each
 static mut QV_LOG_LEN: usize = 0;
-static mut QV_COMMITS: [u8; 8] = [0; 8]; // QV_LOG_LEN after each physical commit
+static mut QV_COMMITS: u64 = 0; // QV_LOG_LEN after each physical commit, 4 bits each
 static mut QV_N_COMMITS: usize = 0;
-static mut QV_STORE: [u8; 2] = [0xFF; 2]; // key -> last value (content model)
-static mut QV_KEYOF: [u8; MAXN] = [0; MAXN]; // epoch -> key written by that batch
+static mut QV_STORE0: u8 = 0xFF; // key 0 -> last value (content model)
+static mut QV_STORE1: u8 = 0xFF; // key 1 -> last value
+static mut QV_KEYOF: u8 = 0; // bit e = key written by batch e
 static mut QV_NOTIFIED: usize = 0; // after-commit notifications
 static mut QV_NOTIFY_BEFORE_DURABLE: bool = false;
 static mut QV_N_HANDED: usize = 0;
@@ -50,12 +51,12 @@ impl kv::WriteBatch for RecBatch {
             let mut i = 0;
             while i < self.n {
                 let e = self.items[i];
-                QV_LOG[QV_LOG_LEN] = e;
+                QV_LOG |= (e as u64) << (4 * QV_LOG_LEN);
                 QV_LOG_LEN += 1;
-                QV_STORE[QV_KEYOF[e as usize] as usize] = e;
+                if (QV_KEYOF >> e) & 1 == 0 { QV_STORE0 = e; } else { QV_STORE1 = e; }
                 i += 1;
             }
-            QV_COMMITS[QV_N_COMMITS] = QV_LOG_LEN as u8;
+            QV_COMMITS |= (QV_LOG_LEN as u64) << (4 * QV_N_COMMITS);
             QV_N_COMMITS += 1;
         }
     }
@@ -100,6 +101,8 @@ macro_rules! h {
     };
 }
 
+fn log_at(j: usize) -> usize { unsafe { ((QV_LOG >> (4 * j)) & 0xF) as usize } }
+fn commit_at(j: usize) -> usize { unsafe { ((QV_COMMITS >> (4 * j)) & 0xF) as usize } }
 fn any_perm<const N: usize>() -> [u8; N] {
     let p: [u8; N] = kani::any();
     let mut seen = [false; N];
@@ -120,36 +123,31 @@ fn run<const N: usize>() -> ([u8; N], bool) {
 }
 fn run_with<const N: usize>(perm: [u8; N]) -> ([u8; N], bool) { run_with2(perm, kani::any()) }
 fn run_with2<const N: usize>(perm: [u8; N], shutting_down: bool) -> ([u8; N], bool) {
-    let mut arrivals = Vec::with_capacity(N);
     let mut model = [0xFFu8; 2];
     let mut i = 0;
     while i < N {
         let k: u8 = kani::any();
         kani::assume(k < 2);
-        unsafe { QV_KEYOF[i] = k; }
+        unsafe { QV_KEYOF |= k << i; }
         model[k as usize] = i as u8; // sequential application in creation order
         i += 1;
     }
-    i = 0;
-    while i < N {
-        arrivals.push((perm[i] as u64, RecBuf { epoch: perm[i] }));
-        i += 1;
-    }
+    let arrivals: [(u64, RecBuf); N] = std::array::from_fn(|j| (perm[j] as u64, RecBuf { epoch: perm[j] }));
     drive_reorder_buffer(&RecDb, arrivals, shutting_down);
     unsafe {
         // C10: exactly once, in creation order, all durable when the committer returns
         assert!(QV_LOG_LEN == N, "every submitted batch reached the store exactly once");
         let mut j = 0;
         while j < N {
-            assert!(QV_LOG[j] as usize == j, "batches become durable in creation (epoch) order");
+            assert!(log_at(j) == j, "batches become durable in creation (epoch) order");
             j += 1;
         }
-        assert!(QV_STORE[0] == model[0] && QV_STORE[1] == model[1], "final content = sequential application in creation order");
+        assert!(QV_STORE0 == model[0] && QV_STORE1 == model[1], "final content = sequential application in creation order");
         // C08: every physical commit extends the durable prefix by whole logical batches
-        assert!(QV_N_COMMITS >= 1 && QV_COMMITS[QV_N_COMMITS - 1] as usize == N, "last physical commit reaches the last batch");
+        assert!(QV_N_COMMITS >= 1 && commit_at(QV_N_COMMITS - 1) == N, "last physical commit reaches the last batch");
         j = 1;
         while j < QV_N_COMMITS {
-            assert!(QV_COMMITS[j - 1] <= QV_COMMITS[j], "durable prefix never shrinks");
+            assert!(commit_at(j - 1) <= commit_at(j), "durable prefix never shrinks");
             j += 1;
         }
         assert!(QV_N_HANDED == N, "each logical batch was handed to exactly one physical batch");
@@ -171,7 +169,7 @@ macro_rules! sched {
             let (_p, sd) = run_with::<$n>($perm);
             kani::cover!(sd, "shutting down");
             kani::cover!(!sd, "not shutting down");
-            kani::cover!(unsafe { QV_STORE[0] } != 0xFF && unsafe { QV_STORE[1] } != 0xFF, "both keys written");
+            kani::cover!(unsafe { QV_STORE0 } != 0xFF && unsafe { QV_STORE1 } != 0xFF, "both keys written");
         });
     };
 }
@@ -304,6 +302,22 @@ h!(c10_q_task_order, 2, {
     kani::cover!(a == b, "equal");
 });
 
+// fully symbolic schedule: arrival permutation and grouping bits are solver variables
+h!(c10_q_symbolic_n2, 7, {
+    let (p, sd) = run::<2>();
+    kani::cover!(p[0] == 1, "batch 1 arrives before batch 0");
+    kani::cover!(commit_at(0) == 2, "both logical batches in one physical commit");
+    kani::cover!(unsafe { QV_N_COMMITS } >= 3, "one commit per batch plus the final flush");
+    kani::cover!(sd, "shutting down");
+});
+h!(c10_t_symbolic_n3, 7, {
+    let (p, sd) = run::<3>();
+    kani::cover!(p[0] == 2 && p[1] == 1, "fully reversed arrival order");
+    kani::cover!(p[0] == 1 && p[1] == 2 && p[2] == 0, "first batch arrives last");
+    kani::cover!(commit_at(0) == 3, "all logical batches in one physical commit");
+    kani::cover!(unsafe { QV_N_COMMITS } >= 4, "one physical commit per logical batch");
+    kani::cover!(!sd, "not shutting down");
+});
 // twins
 h!(c10_xq_sched_twin, 7, {
     unsafe { QV_GROUP = 0b01; }
